@@ -362,8 +362,10 @@ Definition show_rc (r : res (list (str * bval count_ops))) : str :=
   | Panic _ => bs "PANIC"
   end.
 
-(* fuel that is ample for maximal-chunk runs: every transition either ends an action,
-   fills a pipe, or drains min(available, rchunk) bytes *)
+(* fuel that is ample for the maximal-chunk runs of [run] (a write step ends an action or
+   fills the pipe, a read step empties it or moves rchunk bytes); should it ever not be,
+   the outcome is the distinct FUEL, never a wrong prediction - and by
+   C14_every_schedule_completes fuel >= measure always suffices *)
 Fixpoint acts_bytes {O : dataops} (a : list (action O)) : N :=
   match a with
   | [] => 0
@@ -372,7 +374,7 @@ Fixpoint acts_bytes {O : dataops} (a : list (action O)) : N :=
   end.
 Definition fuel_for {O : dataops} (cap rchunk : N) (p : program O) : nat :=
   let b := acts_bytes (p_acts p) in
-  N.to_nat (4 * N.of_nat (length (p_acts p)) + 4 * (b / N.max 1 (N.min cap (N.max 1 rchunk))) + 16).
+  N.to_nat (8 * N.of_nat (length (p_acts p)) + 8 * (b / N.max 1 (N.min cap (N.max 1 rchunk))) + 32).
 
 (* a process started in the wrong directory ends with this code (the helper child
    of the harness checks its working directory) *)
